@@ -620,4 +620,9 @@ def run(chk):
     if refuse and (len(rm) != 1 or foreign):
         chk.violation(r_st, "writer", "the summary writer %s; make_esmry_file() does not overwrite an existing ESMRY file, so after a re-run in the same directory the conversion does nothing and ExtESmry returns the previous run's vectors, time axis and report steps" % ("no longer removes an existing <CASE>.ESMRY when it starts" if not rm else "removes an existing <CASE>.ESMRY only under the additional condition %s" % foreign), ctor["file"], rm[0]["l"] if rm else ctor["l"])
 
+    # the i,j,k in the names of block / connection vectors: the numbering rule of C13, run here because the ESMRY writer and the
+    # legacy reader must produce the same names (ExtSmryOutput::ijk_from_global_index vs ESmry::ijk_from_global_index)
+    import rules.C13 as c13
+    c13.run(core.Only(chk, {"C13.ijk"}))
+
     chk.assumptions += ["the positional seek arithmetic of ESmry::loadData / ExtESmry is not analysed (runtime quantities)"]
